@@ -34,15 +34,15 @@ type KV struct {
 	V *N
 }
 
-func Null() *N             { return &N{K: 'n'} }
-func Bool(b bool) *N       { return &N{K: 'b', B: b} }
-func Int(i int64) *N       { return &N{K: 'i', I: i} }
-func Uint(u uint64) *N     { return &N{K: 'u', U: u} }
-func Flt(f float64) *N     { return &N{K: 'f', F: f} }
-func Flt32(f float32) *N   { return &N{K: 'f', F: float64(f), F32: true} }
-func Str(s string) *N      { return &N{K: 's', S: s} }
-func Arr(xs ...*N) *N      { return &N{K: 'a', A: xs} }
-func Raw(lit string) *N    { return &N{K: 'r', S: lit} }
+func Null() *N           { return &N{K: 'n'} }
+func Bool(b bool) *N     { return &N{K: 'b', B: b} }
+func Int(i int64) *N     { return &N{K: 'i', I: i} }
+func Uint(u uint64) *N   { return &N{K: 'u', U: u} }
+func Flt(f float64) *N   { return &N{K: 'f', F: f} }
+func Flt32(f float32) *N { return &N{K: 'f', F: float64(f), F32: true} }
+func Str(s string) *N    { return &N{K: 's', S: s} }
+func Arr(xs ...*N) *N    { return &N{K: 'a', A: xs} }
+func Raw(lit string) *N  { return &N{K: 'r', S: lit} }
 func Obj(kvs ...any) *N { // Obj("k", v, "k2", v2 ...)
 	n := &N{K: 'o'}
 	for i := 0; i+1 < len(kvs); i += 2 {
